@@ -112,7 +112,7 @@ type Reply struct {
 
 const (
 	memLimit    = 1 << 30
-	caseTimeout = 20 * time.Second
+	caseTimeout = 60 * time.Second
 	stepBudget  = 150000
 )
 
